@@ -42,8 +42,26 @@ def strategy(tier):
         'via': st.sampled_from(['dict', 'file']),
         'op': st.sampled_from(['verify', 'detect']),
         'repair': st.booleans(),
+        # row labels: not data, and not necessarily unique (an un-reset
+        # concat) or numeric
+        'index': st.sampled_from(['default', 'default', 'default', 'dup',
+                                  'strings', 'reversed', 'dup-first']),
         'avoid_known': st.sampled_from([True] * 7 + [False]),
     }).map(steer)
+
+
+def set_index(df, kind):
+    import pandas as pd
+    n = len(df)
+    if kind == 'dup':
+        df.index = pd.Index([i // 2 for i in range(n)])
+    elif kind == 'dup-first':
+        df.index = pd.Index([0] * n)
+    elif kind == 'strings':
+        df.index = pd.Index(['r%d' % (i % 3) for i in range(n)])
+    elif kind == 'reversed':
+        df.index = pd.RangeIndex(n - 1, -1, -1)
+    return df
 
 
 def steer(case):
@@ -62,7 +80,9 @@ def valid(case):
             and case.get('via') in ('dict', 'file')
             and case.get('op') in ('verify', 'detect')
             and isinstance(case.get('inc_rex'), bool)
-            and isinstance(case.get('repair'), bool))
+            and isinstance(case.get('repair'), bool)
+            and case.get('index', 'default') in (
+                'default', 'dup', 'strings', 'reversed', 'dup-first'))
 
 
 def quiet(fn, *a, **kw):
@@ -88,7 +108,9 @@ def run(case, ctx):
     out = Outcome()
     out.excluded = list(case.get('steered', []))
     desc = case['frame']
-    df = F.build_frame(desc)
+    df = set_index(F.build_frame(desc), case.get('index', 'default'))
+    if case.get('index', 'default') != 'default':
+        out.label('index:' + case['index'])
     kinds = [c['kind'] for c in desc['cols']]
     for k in sorted(set(kinds)):
         out.label('kind:' + k)
